@@ -165,6 +165,24 @@ Fixpoint wf_from (n : sid) (evs : list event) : bool :=
   | _ :: evs' => wf_from n evs'
   end.
 
+(* ---- inside _clientDisconnect: micro-steps ----
+   The daemon's disconnect handling is a loop over the stream ids; each iteration re-reads the entry and, if it
+   is still there and owned by the ending connection, marks it lingering (linger > 0) or deletes it.  Other daemon
+   threads (the oneway close_stream thread, another connection's worker exhausting a stream, the housekeeper)
+   can remove entries between two iterations.  [MVisit c id] is one loop iteration, [MRemove id] a removal. *)
+Definition disc_visit (cfg : config) (nw : N) (c : conn) (id : sid) (t : table) : table :=
+  match lookup id t with
+  | Some s => if owned_by c s
+              then (if 0 <? linger cfg then update id (disconnect_stream cfg nw c s) t else remove id t)
+              else t
+  | None => t
+  end.
+Inductive micro := MVisit (c : conn) (id : sid) | MRemove (id : sid).
+Definition micro_step (cfg : config) (nw : N) (t : table) (m : micro) : table :=
+  match m with MVisit c id => disc_visit cfg nw c id t | MRemove id => remove id t end.
+Definition micro_run (cfg : config) (nw : N) (t : table) (ms : list micro) : table :=
+  fold_left (micro_step cfg nw) ms t.
+
 (* ---------------------------------------------------------------- client side *)
 (* A proxy has a connection (or none) and a sequence counter.  A _StreamResultIterator is the state
    machine {proxy reference | dropped (None); stream id; own sequence counter}: client.py keeps no other
